@@ -2,7 +2,9 @@ package props
 
 import (
 	"fmt"
+	"sort"
 	"strings"
+	"sync"
 	"time"
 
 	"verifsim/kernel"
@@ -25,8 +27,98 @@ var c07HoldPoints = [][2]string{
 	{"op.sendinput", "chan.Read.errs"}, {"op.sendinput", "chan.Read.flag"}, {"op.getprompt", "chan.Read.flag"},
 }
 
+// forceTarget is one order of two hook points that plain runs never showed: First must be reached
+// before Second inside the shutdown window. Classes lists the scenario classes (driver/state) in
+// which the two points were seen in the other order, i.e. where both goroutines exist.
+type forceTarget struct {
+	First, Second string
+	Runs          []int // discovery runs that showed Second before First (both goroutines exist there)
+}
+
+// RunForDiscovery is installed by the test binary: it runs one scenario in a bubble of its own.
+var RunForDiscovery func(id string, sc Scenario) *Result
+
+var c07Disc struct {
+	once sync.Once
+	t    map[string][]forceTarget
+}
+
+// forceTargets runs a fixed batch of plain scenarios of the family (discovery: the same batch in
+// every process, so every worker derives the same list), collects the ordered hook pairs they show,
+// and returns the orders that never occurred, most promising first (sorted, deterministic).
+func forceTargets(id string) []forceTarget {
+	c07Disc.once.Do(func() { c07Disc.t = map[string][]forceTarget{} })
+	if t, ok := c07Disc.t[id]; ok {
+		return t
+	}
+	seen := map[string][]int{}
+	if RunForDiscovery != nil {
+		for i := 0; i < discRuns; i++ {
+			res := RunForDiscovery(id, Registry[id].Gen(discSeed, i, "quick:disc"))
+			for _, p := range res.Pairs {
+				if len(seen[p]) < 6 {
+					seen[p] = append(seen[p], i)
+				}
+			}
+		}
+	}
+	var out []forceTarget
+	for p, runs := range seen {
+		i := strings.Index(p, "<")
+		a, b := p[:i], p[i+1:]
+		if _, ok := seen[b+"<"+a]; ok {
+			continue
+		}
+		out = append(out, forceTarget{First: b, Second: a, Runs: runs})
+	}
+	sort.Slice(out, func(i, j int) bool { return out[i].First+"<"+out[i].Second < out[j].First+"<"+out[j].Second })
+	c07Disc.t[id] = out
+
+	return out
+}
+
+const (
+	discSeed = 0xd15c0
+	discRuns = 400
+)
+
+// forcedScenario is run number run of a forced leg: one of the discovery scenarios that showed the
+// two points of the target in the order seen so far, replayed with the other order forced. The
+// first visit of a (target, scenario) keeps the scenario's schedule; later visits draw new ones.
+func forcedScenario(id string, seed uint64, run int) (Scenario, *kernel.ForceSpec, uint64) {
+	ts := forceTargets(id)
+	if len(ts) == 0 {
+		return nil, nil, 0
+	}
+	t := ts[run%len(ts)]
+	visit := run / len(ts)
+	sc := Registry[id].Gen(discSeed, t.Runs[visit%len(t.Runs)], "quick:disc")
+	max := []time.Duration{20 * time.Microsecond, 200 * time.Microsecond, 2 * time.Millisecond, 20 * time.Millisecond}[visit%4]
+	var reseed uint64
+	if visit >= len(t.Runs) {
+		reseed = kernel.RunSeed(seed, id+"/forced", run)
+	}
+
+	return sc, &kernel.ForceSpec{First: t.First, Second: t.Second, Max: max}, reseed
+}
+
 func genC07(seed uint64, run int, tier string) Scenario {
 	_, leg, _ := strings.Cut(tier, ":")
+	if leg == "F" {
+		// forced order: an order of two hook points of two goroutine roles that plain runs did not
+		// show; inside the shutdown window the second is kept waiting until the first was reached
+		// (or the order is given up as infeasible in this run)
+		if s, f, reseed := forcedScenario("C07", seed, run); s != nil {
+			sc := s.(*Session)
+			sc.Force = f
+			if reseed != 0 {
+				sc.SchedSeed = reseed
+			}
+			sc.Class += "/forced"
+
+			return sc
+		}
+	}
 	rs := kernel.RunSeed(seed, "C07", run)
 	r := kernel.Stream(rs, "scenario")
 	sc := &Session{Prop: "C07"}
@@ -132,8 +224,8 @@ func genC07(seed uint64, run int, tier string) Scenario {
 	if r.IntN(3) == 0 {
 		sc.Ops = append(sc.Ops, OpSpec{Kind: "close"})
 	}
-	// sched-hold faults: a few (role, point) pairs get descheduled for a while
 	if leg != "R" && r.IntN(2) == 0 {
+		// sched-hold faults: a few (role, point) pairs get descheduled for a while
 		for i := between(r, 1, 3); i > 0; i-- {
 			hp := c07HoldPoints[r.IntN(len(c07HoldPoints))]
 			d := pick(r, int64(1000), int64(rdNS/2), int64(rdNS), int64(3*rdNS), int64(rdNS)*int64(rdNS)/1000+int64(rdNS))
@@ -155,6 +247,34 @@ func genC07(seed uint64, run int, tier string) Scenario {
 	return sc
 }
 
+// noteForce reports what became of a forced order.
+func noteForce(env *Env, f *kernel.ForceSpec) {
+	if f == nil {
+		return
+	}
+	env.Fault("forced-order", 1)
+	env.Res.Pairs = append(env.Res.Pairs, "?"+f.First+"<"+f.Second)
+	got := false
+	for _, p := range env.Res.Pairs {
+		if p == f.First+"<"+f.Second {
+			got = true
+		}
+	}
+	switch {
+	case got && env.K.ForceEngaged:
+		env.Probe("forced-order:achieved-by-holding")
+		env.Res.Pairs = append(env.Res.Pairs, "!"+f.First+"<"+f.Second)
+	case got:
+		env.Probe("forced-order:occurred-without-holding")
+	case env.K.ForceGaveUp:
+		env.Probe("forced-order:given-up-as-infeasible")
+	case env.K.ForceEngaged:
+		env.Probe("forced-order:first-point-never-reached")
+	default:
+		env.Probe("forced-order:second-point-never-reached")
+	}
+}
+
 func runC07(env *Env, s Scenario) {
 	sc := s.(*Session)
 	sr, done := StartSession(env, sc)
@@ -163,8 +283,12 @@ func runC07(env *Env, s Scenario) {
 	}
 	env.K.PairCover = true
 	env.K.PairStart = map[string]bool{"chan.close.begin": true, "nc.close.done": true}
+	env.K.Force = sc.Force
 	rd := sc.readDelay()
 	settle := 20*rd + 20*time.Millisecond
+	if sc.Force != nil {
+		settle += 3 * sc.Force.Max
+	}
 	// injected descheduling (at most 3 holds per run) must be over before leaks are looked for
 	env.K.MaxHolds = 3
 	for _, h := range sc.Holds {
@@ -184,6 +308,7 @@ func runC07(env *Env, s Scenario) {
 	env.Fault("close-"+sc.F.CloseMode, 1)
 	env.Fault("sched-hold", env.K.Holds)
 	env.Res.Pairs = env.K.OrderedPairs()
+	noteForce(env, sc.Force)
 	if out.Hang {
 		site := hangSite(sr)
 		env.Fail("hang", site, "workload did not finish before the fake deadline %v: %s never returned\n%s", sc.Deadline(), site, out.HangDump)
@@ -264,9 +389,11 @@ func init() {
 			QuickRuns: 3000,
 			ThoroughS: 600,
 			Legs: []Leg{
-				{Name: "D", QuickRuns: 3000, Share: 0.5},
+				{Name: "D", QuickRuns: 3000, Share: 0.35},
+				{Name: "F", QuickRuns: 3000, Share: 0.15},
 				{Name: "R", Race: true, QuickRuns: 320, Share: 0.2, Procs: 4},
-				{Name: "N", Prop: "C07N", QuickRuns: 1500, Share: 0.2},
+				{Name: "N", Prop: "C07N", QuickRuns: 1500, Share: 0.12},
+				{Name: "NF", Prop: "C07N", QuickRuns: 1500, Share: 0.08},
 				{Name: "NR", Prop: "C07N", Race: true, QuickRuns: 200, Share: 0.1, Procs: 4},
 			},
 		},
